@@ -345,7 +345,8 @@ def eval_rt(ctx, binpath, cases, stream, report=True):
                 # a quoted-triple object is written bare, so an annotation marker inside it is taken for an annotation
                 v[key] = "known:C14-quoted-triple-bare-components"
                 continue
-            known = dd_ttl_quad if key == "ttl" else dd_quad
+            # N-Quads / N-Triples: no double-decoding class is left (commit 16f77b9); Turtle path unchanged
+            known = dd_ttl_quad if key == "ttl" else (lambda q: False)
             if ib[0] == "ok" and all(known(q) for q in missing) and (not extra or missing):
                 v[key] = "known:C14-double-decoding"
                 continue
@@ -556,17 +557,20 @@ def run(ctx):
     reproduced = {}
     for c, v in zip(corpus, verdicts):
         exp = c.get("expect", "ok")
-        if exp == "ok":
-            if any(x != "ok" for x in v.values()):
-                ctx.violation(c["case"], {"what": "corpus case %s no longer round-trips" % c["file"], "verdicts": v})
-        elif exp in open_ids:
-            fmts = c.get("formats", ["nq", "nt", "ttl"])
-            still = [k for k in fmts if v.get(k) == "known:" + exp]
-            if still:
-                reproduced.setdefault(exp, []).append("%s [%s]" % (c["file"], ",".join(still)))
-        else:
-            # witness of a finding that is not (or no longer) listed as open: it must simply not be a violation
-            pass
+        per = c.get("expect_formats")     # e.g. {"nq": "ok", "nt": "ok", "ttl": "C14-double-decoding"}
+        if per is None:
+            per = {k: (exp if (exp == "ok" or k in c.get("formats", ["nq", "nt", "ttl"])) else None) for k in ("nq", "nt", "ttl")}
+        still = {}
+        for k, e in per.items():
+            if e is None:
+                continue
+            if e == "ok":
+                if v.get(k) != "ok":
+                    ctx.violation(c["case"], {"what": "corpus case %s no longer round-trips in %s" % (c["file"], k), "verdicts": v})
+            elif e in open_ids and v.get(k) == "known:" + e:
+                still.setdefault(e, []).append(k)
+        for e, ks in still.items():
+            reproduced.setdefault(e, []).append("%s [%s]" % (c["file"], ",".join(ks)))
     for fid, files in sorted(reproduced.items()):
         ctx.known(fid, "%s; still reproduces on corpus/C14 witnesses %s" % (open_ids[fid].get("what", "")[:300], "; ".join(files)))
     ctx.sample(cases[0] if cases else None)
